@@ -47,7 +47,11 @@ func resolveStruct(rv reflect.Value, fieldName string) (any, bool) {
 
 	// Try field name first
 	if f, ok := rt.FieldByName(fieldName); ok {
-		fv := rv.FieldByIndex(f.Index)
+		fv, err := rv.FieldByIndexErr(f.Index)
+		if err != nil || !fv.CanInterface() {
+			// nil embedded pointer or unexported field: not resolvable
+			return nil, false
+		}
 		return fv.Interface(), true
 	}
 
@@ -63,6 +67,9 @@ func resolveStruct(rv reflect.Value, fieldName string) (any, bool) {
 		tagName := strings.Split(tag, ",")[0]
 		if tagName == fieldName {
 			fv := rv.FieldByIndex(f.Index)
+			if !fv.CanInterface() {
+				return nil, false
+			}
 			return fv.Interface(), true
 		}
 	}
@@ -73,6 +80,27 @@ func resolveStruct(rv reflect.Value, fieldName string) (any, bool) {
 // resolveMap handles map access by string key.
 func resolveMap(rv reflect.Value, key string) (any, bool) {
 	mapKey := reflect.ValueOf(key)
+	keyType := rv.Type().Key()
+	switch {
+	case mapKey.Type().AssignableTo(keyType):
+	case keyType.Kind() == reflect.String:
+		mapKey = mapKey.Convert(keyType)
+	case keyType.Kind() >= reflect.Int && keyType.Kind() <= reflect.Int64:
+		n, err := strconv.ParseInt(key, 10, 64)
+		if err != nil || reflect.Zero(keyType).OverflowInt(n) {
+			return nil, false
+		}
+		mapKey = reflect.ValueOf(n).Convert(keyType)
+	case keyType.Kind() >= reflect.Uint && keyType.Kind() <= reflect.Uintptr:
+		n, err := strconv.ParseUint(key, 10, 64)
+		if err != nil || reflect.Zero(keyType).OverflowUint(n) {
+			return nil, false
+		}
+		mapKey = reflect.ValueOf(n).Convert(keyType)
+	default:
+		// key type cannot be addressed by a path step
+		return nil, false
+	}
 	v := rv.MapIndex(mapKey)
 	if !v.IsValid() {
 		return nil, false
